@@ -20,3 +20,9 @@ uint32_t vpx_wmemcmp(uint32_t *a, uint32_t *b, uint64_t n) {
   return 0;
 }
 uint32_t *vpx_wmemchr(uint32_t *s, uint32_t c, uint64_t n) { for (uint64_t i = 0; i < n; i++) { VP_ACCESS(s + i, 4); if (s[i] == c) return s + i; } return 0; }
+/* further <cstring> routines a (changed) library may reach for */
+uint8_t *vpx_strchr(uint8_t *s, uint32_t c) { for (uint64_t i = 0;; i++) { VP_ACCESS(s + i, 1); if (s[i] == (uint8_t)c) return s + i; if (!s[i]) return 0; } }
+uint8_t *vpx_strrchr(uint8_t *s, uint32_t c) { uint8_t *r = 0; for (uint64_t i = 0;; i++) { VP_ACCESS(s + i, 1); if (s[i] == (uint8_t)c) r = s + i; if (!s[i]) return r; } }
+uint32_t vpx_strcmp(uint8_t *a, uint8_t *b) { for (uint64_t i = 0;; i++) { VP_ACCESS(a + i, 1); VP_ACCESS(b + i, 1); if (a[i] != b[i]) return a[i] < b[i] ? (uint32_t)-1 : 1; if (!a[i]) return 0; } }
+uint32_t vpx_strncmp(uint8_t *a, uint8_t *b, uint64_t n) { for (uint64_t i = 0; i < n; i++) { VP_ACCESS(a + i, 1); VP_ACCESS(b + i, 1); if (a[i] != b[i]) return a[i] < b[i] ? (uint32_t)-1 : 1; if (!a[i]) return 0; } return 0; }
+uint8_t *vpx_memrchr(uint8_t *s, uint32_t c, uint64_t n) { for (uint64_t i = n; i > 0; i--) { VP_ACCESS(s + i - 1, 1); if (s[i - 1] == (uint8_t)c) return s + i - 1; } return 0; }
